@@ -12,6 +12,14 @@ CLAIMS = {
    text="Session.tla is model-checked by TLC (DeliverOnlyCurrent, SkipKeepsWaiting, UndecodableEndsCall, LaterMatchDelivered) over all interleavings of sends, receive-loop iterations and injections of the curated fault alphabet; every completed behaviour within the bound is replayed on the real raw sockets of each version/security level and the recorded trace (all octets both ways) is judged by TraceSession.tla, which decodes the datagrams itself and computes each call's required outcome from the ids actually on the wire.",
    note="Bounded: <=2-3 requests, <=2 queued datagrams, <=2-4 injections per behaviour; loopback UDP assumed order-preserving; HMAC/ciphers interpreted by reference implementations.",
    ref="DESIGN.md 5 C04", technique="TLC model checking of Session.tla + exhaustive behaviour replay + TLC trace validation (TraceSession.tla)"),
+ "C05": dict(
+   text="Mibs.tla (TLC) enumerates every MIB over a 7-name universe (multi-octet arcs 128/16384, nested subtrees, entries before/after) x 7 base OIDs (896 pairs) and computes the list a correct walk must yield; Walk.tla (TLC) is the design-level model of the iterator. An honest RFC 3416 agent serves each MIB to the REAL SnmpSession iterators (getnext, getbulk with max_repetitions x agent cap in 1..3, fetch; sync and async; v1, v2c, v3). TraceSession.tla judges every request (PDU type, follow-up OID = last accepted, max-repetitions), every yield (next pair of the reply, exact value) and requires yielded = Subtree(MIB, base) at the end.",
+   note="The agent's honesty is harness code; the final comparison with the TLC-computed subtree makes a dishonest agent show up as a (false) failure rather than a missed one. Quick tier samples the sync / v1 / v3 combinations.",
+   ref="DESIGN.md 5 C05", technique="TLC-enumerated MIB space + TLC model of the iterator + trace validation of the real SnmpSession iterators"),
+ "C06": dict(
+   text="Walk.tla is model-checked by TLC against an unconstrained agent (YieldInsideSubtree, YieldStrictlyIncreasing, FollowUpIsLastAccepted, BoundedProgress, StopsOnNoData). Every (state, reply) transition of its state graph becomes one implementation test: the replies of a shortest path plus the reply are played by a scripted agent to the real getnext/getbulk iterators (sync, async; v1, v2c, v3), together with random reply scripts; TraceSession.tla judges requests (none after the end), yields (inside, strictly increasing, exact, in order) and termination (a walk still running after 40 yields is reported).",
+   note="If the first reply names the base OID itself both 'yield it' and 'stop' are accepted (statement silent). Bounded to replies of <=2-3 pairs over a 5-OID universe exhaustively, random beyond.",
+   ref="DESIGN.md 5 C06", technique="TLC model checking of Walk.tla + one implementation test per transition + TLC trace validation"),
  "C07": dict(
    text="Replies.tla (TLC) enumerates the complete table of replies with 0..3 varbinds over {int, octets, NULL, noSuchObject, noSuchInstance, endOfMibView} x two names (duplicates included) x PDU type {Response, Report, echoed request} (5655 entries), evaluates the required get/get_many mapping over the whole table, and every entry is replayed through get and get_many on real v1/v2c/v3 sockets; TraceSession.tla decodes the reply octets and judges value / None / exception class / dict contents.",
    note="Exception classes are compared by identity with the classes the library exports (SnmpError family). Duplicate names in get_many: either occurrence's value is accepted.",
